@@ -137,7 +137,7 @@ static void program(Rng& r) {
     for (u32 s = 0; s < steps; ++s) {
         if (pool.empty()) pool.push_back(fresh(r));
         u32 ai = r.below((u32)pool.size()); PDU* a = pool[ai];
-        u32 op = r.below(23); std::string name;
+        u32 op = r.below(24); std::string name;
         if (husks.count(a)) { u32 h = r.below(3); op = h == 0 ? 16 : h == 1 ? 31 : 32; }
         describe_case(g_prog + " <next op=" + std::to_string(op) + " on #" + std::to_string(ai) + ">");
         switch (op) {
@@ -206,6 +206,16 @@ static void program(Rng& r) {
                       if (how == 0) { *d = empty; g_prog += "Packet = empty Packet; "; } else { Packet e2; *d = std::move(e2); g_prog += "Packet = move(empty Packet); "; }
                       if (d->pdu()) violation("packet-assign-from-empty/target-keeps-pdu", "a Packet assigned from an empty Packet still holds its old layers (copy is not equal to its source) :: " + g_prog);
                       cnt("op:packet-assign-from-empty"); break; }
+            case 23: { name = "inner_pdu(ref)-of-own-tree";      // the argument is the target itself or one of its own layers: the copy is taken before anything is released
+                      std::vector<PDU*> ch; for (PDU* q = a; q && ch.size() < 16; q = q->inner_pdu()) ch.push_back(q); if (ch.size() > 12 || too_big(a, a)) break;
+                      PDU* at = ch[r.below((u32)ch.size())]; PDU* x = ch[r.below((u32)ch.size())];
+                      Snapshot sx = snap(x); size_t lx = 0; for (PDU* q = x; q; q = q->inner_pdu()) ++lx;
+                      g_prog += "#" + std::to_string(ai) + ": layer " + cls(at) + ".inner_pdu(ref to its own tree's layer " + cls(x) + "); "; describe_case(g_prog);
+                      at->inner_pdu(*x);
+                      size_t ln = 0; for (PDU* q = at->inner_pdu(); q; q = q->inner_pdu()) ++ln;
+                      if (ln != lx) { violation("inner_pdu-ref/own-tree/layer-count", "the attached copy has " + std::to_string(ln) + " layers, the argument had " + std::to_string(lx) + " :: " + g_prog); break; }
+                      if (sx.ok) { Snapshot sn = snap(at->inner_pdu()); if (sn.ok && sn.chain != sx.chain) violation("inner_pdu-ref/own-tree/not-equal", "the attached copy (" + sn.chain + ") is not equal to the argument at the time of the call (" + sx.chain + ") :: " + g_prog); }
+                      cnt("op:inner_pdu-ref-own-tree"); break; }
             default: { name = "inner-replace-self-clone"; if (!a->inner_pdu()) break; a->inner_pdu(a->inner_pdu()->clone()); g_prog += "#" + std::to_string(ai) + ".inner_pdu(clone of its own child); "; cnt("op:replace-child-with-its-clone"); }
         }
         if (name.empty()) continue;
